@@ -10,6 +10,7 @@ package main
 import (
 	"fmt"
 	"go/ast"
+	"go/constant"
 	"go/token"
 	"go/types"
 	"sort"
@@ -2635,4 +2636,176 @@ func onlyLiteralsHandedIn(p *Prog, fn *Fn, par types.Object) bool {
 		})
 	}
 	return ok && sites > 0
+}
+
+// referencesSkipThePredecessors: every identifier that Append puts into the skip references of the new entry got
+// there under a test against the predecessors it is about to name: an addition to the reference list that is not
+// controlled by a comparison with the predecessor list can put a head into both lists.
+func referencesSkipThePredecessors(c *Ctx, r *Report, rule string) {
+	p := c.P
+	app := p.FuncI("", "IPFSLog", "Append")
+	// the locals handed to the entry literal as Next and Refs
+	var refsObj, nextObj types.Object
+	walkNoLit(app.Body, func(n ast.Node) bool {
+		if kv, ok := n.(*ast.KeyValueExpr); ok {
+			if k, ok := kv.Key.(*ast.Ident); ok {
+				if v, ok := ast.Unparen(kv.Value).(*ast.Ident); ok {
+					if cl, ok := p.parent[kv].(*ast.CompositeLit); ok && isNamed(p.TypeOf(app, cl), p.pkgPath("entry"), "Entry") {
+						switch k.Name {
+						case "Refs":
+							refsObj = p.ObjOf(app, v)
+						case "Next":
+							nextObj = p.ObjOf(app, v)
+						}
+					}
+				}
+			}
+		}
+		return true
+	})
+	if refsObj == nil || nextObj == nil {
+		r.Undecided(rule, r.Key(rule, app, "refs-filter", ""), app.Body.Pos(), "Append does not hand locals to the Next and Refs of the new entry")
+		return
+	}
+	mentions := func(n ast.Node, o types.Object) bool {
+		found := false
+		ast.Inspect(n, func(m ast.Node) bool {
+			if id, ok := m.(*ast.Ident); ok && p.ObjOf(app, id) == o {
+				found = true
+			}
+			return true
+		})
+		return found
+	}
+	n := 0
+	walkNoLit(app.Body, func(nd ast.Node) bool {
+		as, ok := nd.(*ast.AssignStmt)
+		if !ok || len(as.Lhs) != 1 || len(as.Rhs) != 1 {
+			return true
+		}
+		id, ok := ast.Unparen(as.Lhs[0]).(*ast.Ident)
+		if !ok || p.ObjOf(app, id) != refsObj {
+			return true
+		}
+		call, ok := ast.Unparen(as.Rhs[0]).(*ast.CallExpr)
+		if !ok || p.Builtin(app, call) != "append" {
+			return true
+		}
+		n++
+		// guarded: an enclosing condition names the predecessor list, or tests a flag that a comparison loop over the
+		// predecessor list (inside the same enclosing loop) sets
+		guarded := false
+		for cur := p.parent[ast.Node(as)]; cur != nil && cur != ast.Node(app.Body); cur = p.parent[cur] {
+			ifs, ok := cur.(*ast.IfStmt)
+			if !ok {
+				continue
+			}
+			if mentions(ifs.Cond, nextObj) {
+				guarded = true
+			}
+			// flags of the condition
+			ast.Inspect(ifs.Cond, func(m ast.Node) bool {
+				fid, ok := m.(*ast.Ident)
+				if !ok {
+					return true
+				}
+				flag := p.ObjOf(app, fid)
+				if flag == nil {
+					return true
+				}
+				for _, lp := range enclosingLoops(p, app, as) {
+					ast.Inspect(lp, func(k ast.Node) bool {
+						if rs, ok := k.(*ast.RangeStmt); ok && mentions(rs.X, nextObj) {
+							setsFlag, compares := false, false
+							ast.Inspect(rs.Body, func(q ast.Node) bool {
+								switch y := q.(type) {
+								case *ast.AssignStmt:
+									for _, l := range y.Lhs {
+										if li, ok := ast.Unparen(l).(*ast.Ident); ok && p.ObjOf(app, li) == flag {
+											setsFlag = true
+										}
+									}
+								case *ast.CallExpr:
+									if se, ok := ast.Unparen(y.Fun).(*ast.SelectorExpr); ok && se.Sel.Name == "Equals" {
+										compares = true
+									}
+								case *ast.BinaryExpr:
+									if y.Op == token.EQL || y.Op == token.NEQ {
+										compares = true
+									}
+								}
+								return true
+							})
+							if setsFlag && compares {
+								guarded = true
+							}
+						}
+						return true
+					})
+				}
+				return true
+			})
+		}
+		r.Check(guarded, rule, r.Key(rule, app, "refs-filter", ""), as.Pos(),
+			"this addition to the skip references is made under a test against the predecessor list",
+			"Append adds an identifier to the skip references of the new entry outside the test against the predecessors it names: when the walk's last entry is a head — a short branch beside a long one — the entry lists it both as predecessor and as reference")
+		return true
+	})
+	r.Floor(rule, "additions to the skip references in Append", n, 1)
+}
+
+// lengthTestsAreSignTests: "no limit" is any negative length, at every place that asks. A test for one particular
+// negative value at one of them makes a load that another place treats as unlimited follow the bounded rules with a
+// negative bound there.
+func lengthTestsAreSignTests(c *Ctx, r *Report, rule string) {
+	p := c.P
+	nSign := 0
+	for _, fn := range p.Fns {
+		if fn.Body == nil || !(fn.Pkg.PkgPath == p.pkgPath("entry") || fn.Pkg.PkgPath == p.pkgPath("")) {
+			continue
+		}
+		fn := fn
+		isLength := func(e ast.Expr) bool {
+			e = ast.Unparen(e)
+			if st, ok := e.(*ast.StarExpr); ok {
+				e = ast.Unparen(st.X)
+			}
+			if v, _ := p.FieldSel(fn, e); v != nil && strings.EqualFold(v.Name(), "length") {
+				return true
+			}
+			return false
+		}
+		walkNoLit(fn.Body, func(n ast.Node) bool {
+			be, ok := n.(*ast.BinaryExpr)
+			if !ok {
+				return true
+			}
+			for _, pr := range [][2]ast.Expr{{be.X, be.Y}, {be.Y, be.X}} {
+				if !isLength(pr[0]) {
+					continue
+				}
+				tv, ok := fn.Pkg.TypesInfo.Types[pr[1]]
+				if !ok || tv.Value == nil {
+					continue
+				}
+				v, exact := constant.Int64Val(constant.ToInt(tv.Value))
+				if !exact {
+					continue
+				}
+				switch be.Op {
+				case token.EQL, token.NEQ:
+					r.Check(v >= 0, rule, r.Key(rule, fn, "length-test", types.ExprString(be)), be.Pos(),
+						"the length is compared for equality with a non-negative value",
+						fmt.Sprintf("`%s` in %s singles out one negative length: every negative length means no limit where the loaders and the dispatcher ask — a load with another negative length is unlimited for them and bounded, with a negative bound, here, and returns only the heads and their direct predecessors", types.ExprString(be), fn.Name))
+				default:
+					if v == 0 || v == -1 {
+						nSign++
+					}
+				}
+			}
+			return true
+		})
+	}
+	r.Hold(rule, r.Key(rule, nil, "sign-tests", ""), token.NoPos, true, fmt.Sprintf("%d comparisons of a fetch length with 0 or -1 are order comparisons (sign tests)", nSign))
+	r.Floor(rule, "sign tests of a fetch length", nSign, 4)
 }
